@@ -379,6 +379,26 @@ theorem msgspec_sort_key_witness :
     sortKey d7mWitness.kind (fromSchema d7mWitness) = some false ∧
     (render d7mWitness).asg = .lit .none ∧ msKeyMismatch d7mWitness = true := by decide
 
+/-! ### The spelling options
+
+`--use-union-operator`, `--use-standard-collections` and `--use-generic-container-types` are not
+part of `Vec`: the end-to-end campaign draws them at random and compares with the model that does
+not know them. One of them is not only spelling (`semG`). -/
+
+/-- `--use-generic-container-types` takes the class away exactly for a constrained array member of
+pydantic-1 output (pydantic 1 refuses `Sequence[…]` with `max_items`); otherwise — and always when
+the option is off — the semantics are those every theorem above speaks about. -/
+theorem generic_container_exact (v : Vec) (ug : Bool) :
+    semG v false = sem v ∧
+    (v1SequenceConstraint v ug = false → semG v ug = sem v) ∧
+    (v1SequenceConstraint v ug = true → (semG v ug).loads = false) := by
+  refine ⟨by simp [semG, v1SequenceConstraint], ?_, ?_⟩ <;> intro h <;> simp [semG, h]
+
+/-- the family is real: `{"type": "array", "maxItems": 9}` → `n: Optional[Sequence[str]] = Field(None, max_items=9)` -/
+theorem generic_container_witness :
+    let v : Vec := ⟨.v1, .no, false, .none, .array, true, ⟨false, false, false, false, false, false⟩, .own, .plain, false⟩
+    v.valid = true ∧ (sem v).loads = true ∧ (semG v true).loads = false := by decide
+
 /-! ### Union-typed members (`anyOf` / `oneOf`): null admitted through an alternative
 
 `DataType.type_hint` collects the hints of the alternatives, skips repeated ones, strips `None`
